@@ -244,6 +244,58 @@ def pathological(rng):
     out.append('a' * 4000); out.append('1' * 3000 + '!' * 1000); out.append('ab1!' * 1000)
     return [s for s in out if valid_password(s)]
 
+PRE_WORDS = ['love', 'cats', 'blue', 'moon', 'star', 'wars', 'fire', 'wall', 'rain', 'drop', 'gold', 'fish', 'home', 'work', 'snow', 'ball', 'king', 'kong', 'hand', 'book']
+
+def gen_pretrained(rng):
+    """A training list together with a --multiword word list.  Some words of the word list also occur a few times in the training list; some compounds are in the
+    word list (they are base words: they stay whole although both halves are frequent), others are not (they may be split)."""
+    pairs = [tuple(rng.sample(PRE_WORDS, 2)) for _ in range(rng.randint(2, 4))]
+    words, items = [], []
+    for a, b in pairs:
+        kind = rng.choice(['whole_pretrained', 'whole_pretrained', 'parts_pretrained', 'nothing'])
+        if kind == 'whole_pretrained':
+            words.append(rng.choice([a + b, (a + b).capitalize(), a + b + ' 7']))
+            items += [[a + rng.choice(['1', '!', '99']), rng.randint(5, 7)], [b + rng.choice(['2', '#', '07']), rng.randint(5, 7)]]
+            items.append([rng.choice([a + b + '1', (a + b).capitalize() + '!', '12' + a + b]), rng.randint(1, 3)])
+        elif kind == 'parts_pretrained':
+            words += [a, b]
+            items += [[a + '12', rng.randint(0, 3)], [b + '!', rng.randint(0, 3)], [a + b + rng.choice(['1', '', '#']), rng.randint(1, 2)]]
+        else:
+            items += [[a + '5', rng.randint(4, 6)], [b + '6', rng.randint(4, 6)], [a + b, rng.randint(1, 5)]]
+    words += rng.sample(PRE_WORDS, 2) + rng.sample(['x', 'abc', '12 twelve', 'spam spam', ''], 2)
+    items = [[p, k] for p, k in items if k > 0]
+    rng.shuffle(items); rng.shuffle(words)
+    return {'pretrained': words, 'items': items, 'coverage': rng.choice([0.6, 1.0]), 'ngram': rng.choice([2, 3])}
+
+def check_pretrained(run, case):
+    """End to end through the real run_trainer with a --multiword list: the segmentation the trainer learned from must be sound with respect to the history the
+    detector was given - the word list first (a new word there counts as a base word), then every password of the list."""
+    from .. import trainer
+    name, path = repo.new_rules_dir('c05mw')
+    try:
+        data = trainlists.render_plain([(p, k) for p, k in case['items']], 'utf-8')
+        mw = ''.join(w + '\n' for w in case['pretrained']).encode('utf-8')
+        res = trainer.train(data, path, multiword_data=mw, encoding='utf-8', coverage=case['coverage'], ngram=case['ngram'], alphabet_size=100, max_len=21)
+        if not res.ok:
+            run.ev('trainings_not_completed'); run.inconc('training did not complete'); return
+        run.ev('trainings_with_a_multiword_list')
+        words = [w for w in case['pretrained'] if oracles.valid_password(w)]
+        history = [p for p, k in case['items'] for _ in range(k) if oracles.valid_password(p)]
+        tally = oracles.mw_tally(history, pretrained=words)
+        for pw, secs in res.segmented:
+            run.ev('SEGMENTED')
+            bad = oracles.validate_segmentation(pw, [tuple(x) for x in secs], tally)
+            if bad:
+                run.violation(f'run_trainer with a --multiword list: segmentation of {pw!r} is unsound: {bad[0][0]}: {bad[0][1]}', case, observed=secs,
+                              expected={'word_list': case['pretrained'], 'tally_of_the_parts': {k: tally[k] for s_, _ in secs for k in [s_.lower()] if k in tally}})
+                return
+            labs = [l for _, l in secs]
+            if any(a[0] == 'A' and b[0] == 'A' for a, b in zip(labs, labs[1:])):
+                run.ev('multiword_splits_validated')
+        run.case(h(['pretrained', case['pretrained'], case['items']]))
+    finally:
+        repo.drop_rules(name)
+
 def run(run, rng):
     run.required_events = ['parse_calls', 'SEGMENTED', 'counter_comparisons', 'multiword_splits_validated']
     run.min_distinct = 40
@@ -261,6 +313,8 @@ def run(run, rng):
         case = {'history': hist, 'strings': strings}
         run.guard(case, check_batch, seconds=300)
         done += BATCH
+    for _ in range(12 if run.tier == 'quick' else 150):
+        run.guard(gen_pretrained(rng), check_pretrained, seconds=120)
     if run.tier == 'quick' and run.shard[0] == 0:
         for s_ in ('1qaz2wsx3edc4rfv' * 300, ''.join(['1qaz9', 'zaq1x', 'qwer1!'][i % 3] for i in range(1500))):
             run.ev('pathological_length_cases')
@@ -296,4 +350,7 @@ def run_repo_tests_with_contracts(run):
         run.violation('the repository test suite fails with the detector contracts switched on: ' + last, {'history': [], 'strings': []}, observed=r.stdout[-1500:])
 
 def replay(run, case):
-    check_batch(run, case['case'])
+    if 'pretrained' in case['case']:
+        check_pretrained(run, case['case'])
+    else:
+        check_batch(run, case['case'])
